@@ -523,6 +523,11 @@ func (c *Collection) Find(ctx context.Context, filter interface{}, opts ...*opti
 		limit = int(*opt.Limit)
 	}
 
+	// a negative limit asks for that many documents in a single batch
+	if limit < 0 {
+		limit = -limit
+	}
+
 	// find documents
 	res, err := useTransaction(ctx, c.engine, false, func(txn *Transaction) (interface{}, error) {
 		return txn.Find(c.handle, query, sort, skip, limit)
